@@ -1,6 +1,7 @@
 """C13 - initial-conditions file write/read round trip (specs/InconFile.tla)."""
 import glob
 import json
+import string
 import os
 import random
 import shutil
@@ -32,6 +33,9 @@ CHECK_DEADLOCK FALSE
 # a name is in the domain when repairing the simulator's print form gives it back
 NAMES = [" a105", "A 209", "  101", " b 12", "AA  1", "aa 12", " a  1", "abc12", "a 123", "AB105", "zz 99", "  a 1", "ab105", "Ab* 7",
          " 1  1", "A1  2", "xyz 3", "atm 0", "q9912", "  1 1", " a101", "ATM 0", "b 1 2".replace(" 1 2", "1 02")]
+
+
+PUNCT_NAMES = [("ab"[:k] + c + "ab"[k:] + " " + "%d" % (1 + (i + k) % 9)) for i, c in enumerate(string.punctuation) for k in range(3)]
 
 
 def model(maxblocks, nvs, relax="none", export=True, workers=1):
@@ -73,6 +77,9 @@ def build(t2incons, d, rng, names):
         if perm is not None and rng.random() < 0.3:
             perm[rng.randrange(3)] = 0.0            # an impermeable direction: present, and exactly zero
         nseq, nadd = (rng.randint(0, 99999), rng.randint(0, 9999)) if b["seq"] else (None, None)
+        if b["seq"] and rng.random() < 0.4:
+            # the two numbers are independent fields: either may be absent, or zero, on its own
+            nseq, nadd = rng.choice([(None, nadd), (nseq, None), (0, nadd), (nseq, 0), (0, 0)])
         pending.append(t2incons.t2blockincon(vals, name, por, perm, nseq, nadd))
         truth.append({"name": name, "vals": vals, "por": por, "perm": None if perm is None else list(perm), "nseq": nseq, "nadd": nadd})
     if len(pending) >= 2 and rng.random() < 0.3:
@@ -121,7 +128,7 @@ def abstract_stream(events, truth):
         elif k in ("incon1", "incon1_toughreact"):
             blk += 1
             pos = 0
-            out.append({"k": k, "blk": blk, "por": v[3] is not None, "seq": v[1] is not None,
+            out.append({"k": k, "blk": blk, "por": v[3] is not None, "seq": v[1] is not None or v[2] is not None,
                         "perm": k == "incon1_toughreact"})
         elif k == "incon2":
             tv = truth[blk - 1]["vals"]
@@ -219,6 +226,11 @@ def run(tier):
             d = e["doc"]
             pool = [n for n in NAMES if naming.canonical(n)]
             names = rng.sample(pool, len(d["blocks"]))
+            if names:
+                # every punctuation character, in each of the first three places, is a legal name character
+                pn = PUNCT_NAMES[n % len(PUNCT_NAMES)]
+                if naming.canonical(pn) and pn not in names:
+                    names[rng.randrange(len(names))] = pn
             inc, truth, timing = build(t2incons, d, rng, names)
             p1, p2 = os.path.join(work, "a.incon"), os.path.join(work, "b.incon")
             key = "%s:nv=%s:reset=%s:nvar=%s" % (d["flav"], sorted(set(b["nv"] for b in d["blocks"])), e["reset"], e["nvar"])
